@@ -66,7 +66,7 @@ if meta['confirmed']:
         sh(f'git -C /repo apply {dst}/patch.diff')
         try:
             t0 = time.time()
-            c = sh(f'./run.sh {cp} {tier}', cwd='/verif')
+            c = sh(f'./run.sh {cp} {tier}', cwd='/verif', env={**os.environ, 'VERIF_EVIDENCE_DIR': '/tmp/verif_mutant_evidence'})
         finally:
             sh('git -C /repo checkout -- .')
             sh('git -C /repo clean -fdq kernpy')
